@@ -17,7 +17,7 @@ StMatch == /\ http' = E.status
 TInit == Init /\ l = 1 /\ TLCSet(7, 0)
 TReset == /\ Cur("Reset")
           /\ phase' = "idle" /\ decl' = 0 /\ parts' = <<>> /\ total' = 0 /\ hashed' = <<>> /\ mpu' = "none" /\ obj' = <<>>
-          /\ s3calls' = 0 /\ faultAt' = 0 /\ http' = 0 /\ final' = FALSE /\ env' = NoEnv /\ ack' = NoAck /\ hist' = <<>>
+          /\ s3calls' = 0 /\ faultAt' = 0 /\ http' = 0 /\ final' = FALSE /\ env' = NoEnv /\ ack' = NoAck /\ hist' = <<>> /\ lclass' = "none"
 TArm == Cur("Arm") /\ Arm(E.k)
 TSingle == Cur("Single") /\ Single(E.size, E.reply) /\ StMatch
 TInitUp == Cur("Init") /\ InitUp(E.size) /\ StMatch
